@@ -323,7 +323,32 @@ def clif_obs(p):
     return p.status, marks, None
 
 
+class _Budget(Exception):
+    pass
+
+
 def check_program(chk, prover, mod, prog, src, stats, data=None, prop='C01'):
+    """one program under a wall-clock budget (symbolic execution of the CLIF, reference paths, pairwise comparison): a program
+    that exceeds it is counted as undecided, never as passed"""
+    import signal
+
+    def on_alarm(sig, frm):
+        raise _Budget()
+    budget = 150 if chk.tier == 'quick' else 500
+    old = signal.signal(signal.SIGALRM, on_alarm)
+    signal.setitimer(signal.ITIMER_REAL, budget)
+    try:
+        return _check_program(chk, prover, mod, prog, src, stats, data=data, prop=prop)
+    except _Budget:
+        stats['undecided_solver_timeout'] = stats.get('undecided_solver_timeout', 0) + 1
+        stats.setdefault('undecided_programs', []).append(prog['entry'])
+        return None
+    finally:
+        signal.setitimer(signal.ITIMER_REAL, 0)
+        signal.signal(signal.SIGALRM, old)
+
+
+def _check_program(chk, prover, mod, prog, src, stats, data=None, prop='C01'):
     entry = [f for f in prog['funcs'] if f['name'] == prog['entry']][0]
     args = []; pre = []; refargs = []
     for p in entry['params']:
